@@ -706,31 +706,54 @@ def order_witnesses(run, binp):
     return found
 
 
-def call_site_shape(run):
-    """T1-style shape check of the one thing this check reads but does not execute: Client::handle
-    calls `pool.wait_paused().await` before it takes a server with `pool.get(...)` and re-resolves the pool."""
+def call_site_shape(run, path=None):
+    """T1-style shape check of the call site in Client::handle (also executed by the wire leg).  Accepted, exactly:
+           pool = self.get_pool().await?;          // the pool that is registered NOW (not the session's old object)
+           pool.wait_paused().await;               // unconditional, once
+           pool = self.get_pool().await?;          // re-resolved after the wait
+           query_router.update_pool_settings(&pool.settings);
+           self.transaction_mode = ...;
+           ... pool.get(query_router.shard(), query_router.role(), ..)
+       consecutive statements at one block level (comments and blank lines ignored)."""
     try:
-        src = open(os.path.join(vlib.REPO, "src", "client.rs")).read()
+        src = open(path or os.path.join(vlib.REPO, "src", "client.rs")).read()
     except OSError as e:
         return "cannot read client.rs: %s" % e
-    src = vlib.strip_comments(src) if False else "\n".join(l for l in src.splitlines() if not l.strip().startswith("//"))
-    i = src.find("pool.wait_paused().await")
-    j = src.find(".get(query_router.shard(), query_router.role()")
-    k = src.find("pool = self.get_pool().await?")
-    if i < 0:
+    lines = [l.rstrip() for l in src.splitlines() if l.strip() and not l.strip().startswith("//")]
+    w = [n for n, l in enumerate(lines) if "wait_paused()" in l]
+    if not w:
         return "Client::handle no longer calls pool.wait_paused().await"
-    if src.count("pool.wait_paused().await") != 1:
-        return "Client::handle calls wait_paused() %d times (the model has one call per checkout)" % src.count("pool.wait_paused().await")
-    if j < 0 or not (i < j):
-        return "pool.wait_paused().await no longer precedes the checkout pool.get(..)"
-    if k < 0 or not (i < k < j):
-        return "the pool is no longer re-resolved between wait_paused() and the checkout"
+    if len(w) != 1:
+        return "Client::handle calls wait_paused() %d times (the model has one call per checkout)" % len(w)
+    n = w[0]
 
-    def indent_at(pos):
-        ls = src.rfind("\n", 0, pos) + 1
-        return pos - ls
-    if indent_at(i) != indent_at(k):
-        return "pool.wait_paused().await is nested in a condition (it is not at the block level of `pool = self.get_pool()`): the gate is no longer passed before EVERY checkout"
+    def ind(l):
+        return len(l) - len(l.lstrip())
+    if lines[n].strip() != "pool.wait_paused().await;":
+        return "the wait is no longer the plain statement `pool.wait_paused().await;` (found `%s`)" % lines[n].strip()
+    lookup = "pool = self.get_pool().await?;"
+    if n >= 1 and lines[n - 1].rstrip().endswith("{") and ind(lines[n - 1]) < ind(lines[n]):
+        return "pool.wait_paused().await is nested in `%s`: the gate is no longer passed before EVERY checkout" % lines[n - 1].strip()
+    if n < 1 or lines[n - 1].strip() != lookup:
+        return "the pool is not looked up right before wait_paused(): the session would wait on the pool object it resolved earlier (a removed / replaced pool nobody pauses)"
+    if n + 3 >= len(lines) or lines[n + 1].strip() != lookup:
+        return "the pool is no longer re-resolved between wait_paused() and the checkout"
+    if lines[n + 2].strip() != "query_router.update_pool_settings(&pool.settings);":
+        return "the pool settings are no longer refreshed after the wait"
+    if not lines[n + 3].strip().startswith("self.transaction_mode ="):
+        return "transaction_mode is no longer refreshed after the wait"
+    if len({ind(lines[m]) for m in range(n - 1, n + 4)}) != 1:
+        return "pool.wait_paused().await is nested in a condition (not at the block level of the lookups around it): the gate is no longer passed before EVERY checkout"
+    # the block that contains the gate must be the transaction loop body itself, not an `if` / `match` arm
+    depth_line = None
+    for m in range(n - 2, -1, -1):
+        if ind(lines[m]) < ind(lines[n]) and lines[m].rstrip().endswith("{"):
+            depth_line = lines[m].strip(); break
+    if depth_line is None or not depth_line.startswith("loop"):
+        return "the gate sits inside `%s`, not directly in the transaction loop: it is passed only for some messages / modes" % depth_line
+    rest = "\n".join(lines[n + 4:])
+    if ".get(query_router.shard(), query_router.role()" not in rest:
+        return "pool.wait_paused().await no longer precedes the checkout pool.get(..)"
     return None
 
 
